@@ -537,7 +537,8 @@ PROPS["C03"] = {
 
 PROPS["C20"] = {
     "title": "Core queries are total on finite input",
-    "gen_modules": ["Consts", "Basis", "Section", "Lines", "FatLine", "CurveLine", "CurveBounds", "Walk", "Fit", "Nearest", "Length", "PointInPath", "Normal", "Total"],
+    "props_modules": ["C20", "C20Roots"],
+    "gen_modules": ["Consts", "Basis", "Section", "Lines", "FatLine", "CurveLine", "CurveBounds", "Walk", "Fit", "Nearest", "Length", "PointInPath", "Normal", "Total", "Roots"],
     "corr_n": (24000, 300000),
     "search_n": (1000, 100000),
     "technique": "Lean 4 theorems 'finite in, finite out' about definitions translated from the Rust source on every run, instantiated at XQ (exact rationals with the IEEE-754 rules for "
@@ -568,7 +569,7 @@ PROPS["C20"] = {
                   "test the computed divisor itself (factor == 0.0, denominator == 0.0, |divisor| > 2e-12, aa != 0.0, |speed| < 1e-8, |det| < 1e-4, magnitude == 0.0) do not depend on exactness; "
                   "t_c >= 1.0 for the divisor 1.0 - t_c and 'a, b not both 0' for sqrt(a*a+b*b) do. f64::sqrt is any function with sqrt q >= 0 and sqrt q = 0 iff q = 0. The work bounds are honest "
                   "but not 'proportional to the input size': section_length's only unconditional bound is the MIN_ERROR floor (3e10 iterations for max_error = 0.01; that the flatness test "
-                  "accepts long before is not a theorem), find_bezier_roots' is 2^49, the number of sections of an even walk has no bound at all (termination of the walk is not a theorem). "
+                  "accepts long before is not a theorem), find_bezier_roots' is 2^49 - a theorem about the GENERATED loop (Props/C20Roots: the control skeleton Model.Total.rootsLoop is proved to BE the generated loop, step by step and for every fuel - specStep_simulates, runSpec_eq_rootsLoop - so find_bezier_roots_loop_terminates holds for the code as translated; needs the Gen module Roots), the number of sections of an even walk has no bound (every section has positive parameter length - C15Progress - but a lower bound is not a theorem). "
                   "section_t_for_original_t of an empty section (non-finite for every t: proved) is a parameter conversion outside the operations the property enumerates; the catalogue counts it "
                   "(info.section_t_for_original_t_empty_section_non_finite) and the library's own use (join_subsections) only compares the value. " + COMMON_NOTE,
     "rule": "corr: curve classes all/three/last-three control points equal, collinear (also horizontal, vertical, overshooting), closed, control points at the ends / coincident, generic; scales 1, 1e-9, "
